@@ -98,6 +98,8 @@ func genImportCase(r *rand.Rand) (files map[string]string, expected string, shar
 		}
 		sb.WriteString("\treturn r\n}\n")
 		sb.WriteString(fmt.Sprintf("func Bump%d() {\n\tCount%d = Count%d + 1\n}\nfunc Read%d() int {\n\treturn Count%d\n}\n", i, i, i, i, i))
+		// a private global with the SAME name in every file (main included): each file has its own
+		sb.WriteString(fmt.Sprintf("var state int = %d\nfunc State%d() int {\n\treturn state\n}\nfunc Touch%d() {\n\tstate = state + 1\n}\n", m.konst*3, i, i))
 		sb.WriteString(fmt.Sprintf("func Unused%d() string {\n\treturn \"never\"\n}\n", i))
 		if m.topStmt {
 			// load-time code: a function reachable from nowhere else, state changes in imported modules
@@ -146,9 +148,10 @@ func genImportCase(r *rand.Rand) (files map[string]string, expected string, shar
 		}
 		mb.WriteString(")\n")
 	}
-	mb.WriteString("func localfn() int {\n\treturn 7\n}\n")
+	mb.WriteString("var state int = 1000\nfunc localfn() int {\n\treturn 7\n}\n")
 	mb.WriteString("print(\"main\", localfn())\n")
 	out = append(out, "main 7")
+	touches := make([]int, n)
 	for k, j := range m.imports {
 		a := m.aliases[k]
 		mb.WriteString(fmt.Sprintf("print(%s.Get%d())\n", a, j))
@@ -159,6 +162,15 @@ func genImportCase(r *rand.Rand) (files map[string]string, expected string, shar
 			out = append(out, fmt.Sprintf("count %d", counts[j]))
 			feats = append(feats, "module-state")
 		}
+	}
+	for k, j := range m.imports {
+		a := m.aliases[k]
+		mb.WriteString(fmt.Sprintf("%s.Touch%d()\nstate = state + 5\nprint(\"state\", state, %s.State%d())\n", a, j, a, j))
+		touches[j]++
+		out = append(out, fmt.Sprintf("state %d %d", 1000+5*(k+1), mods[j].konst*3+touches[j]))
+	}
+	if len(m.imports) > 0 {
+		feats = append(feats, "same-named-private-globals")
 	}
 	if withStd {
 		mb.WriteString("print(strings.Repeat(\"ab\", 2))\n")
